@@ -245,6 +245,9 @@ func classify(p *lang.Program, o *ref.Outcome, feat map[string]int) (nontrivial 
 }
 
 func check(t ev.TB, test string, p *lang.Program, inputs map[string]*lang.Val, feat map[string]int, hostMod bool) {
+	// a fatal error of the Go runtime while this case runs is reported by the driver from this record
+	ev.InFlight(test, payload{Program: p, Inputs: inputs, HostMod: hostMod})
+	defer ev.InFlightDone()
 	v := decide(p, inputs, hostMod)
 	if v.discard != "" {
 		ev.Discard(v.discard)
